@@ -9,6 +9,7 @@ import Driver.C07
 import Driver.C06
 import Driver.C04
 import Driver.C04Oracle
+import Driver.C08
 open Ws.Driver
 
 def dispatch (op : String) (args : List String) (obs : String) : String × String :=
@@ -30,6 +31,8 @@ def dispatch (op : String) (args : List String) (obs : String) : String × Strin
   | "u8" => c07u8 args obs
   | "wr" => c06wr args obs
   | "wm" => c06wm args obs
+  | "ctl" => c08ctl args obs
+  | "cw" => c08cw args obs
   | "rm" => (c04rm args obs, rmOracle args obs)
   | "rdd" => (c04rdd args obs, rddOracle args obs)
   | "rdr" => (c04rdr args obs, rdrOracle args obs)
